@@ -641,6 +641,65 @@ fn factory_cases(ctx: &Arc<Ctx>) {
 		invalid.push(format!("{src} | {}", parts.join(" ")));
 	}
 	invalid.push(format!("{src} | {}", up.replace("id_field_data=\"data_id\"", "id_field_data=\"no_such_column\"")));
+	// systematic: every invalid node x every position in which a node can stand (directly after the source, after a
+	// filter that keeps tiles, after filters that leave no tile at all, before a valid node, inside a nested source)
+	{
+		let scalar_as_list = |node: &str, key: &str| -> Vec<String> { ["[]", "[ ]", "[1,2]", "[a,b]"].iter().map(|l| format!("{node} {key}={l}")).collect() };
+		let mut bad_transforms: Vec<String> = vec![
+			"unknown_transform".into(),
+			"no_such_operation a=1".into(),
+			"from_debug format=pbf".into(),
+			"filter_bbox".into(),
+			"filter_bbox bbox=[1,2,3]".into(),
+			"filter_bbox bbox=[1,2,3,4,5]".into(),
+			"filter_bbox bbox=[a,b,c,d]".into(),
+			"filter_bbox bbox=[10,0,5,1]".into(),
+			"filter_bbox bbox=7".into(),
+			"filter_zoom max=abc".into(),
+			"filter_zoom min=-1".into(),
+			"filter_zoom max=1.5".into(),
+			"filter_zoom min=256".into(),
+		];
+		bad_transforms.extend(scalar_as_list("filter_zoom", "min"));
+		bad_transforms.extend(scalar_as_list("filter_zoom max=3", "min"));
+		bad_transforms.extend(scalar_as_list("filter_zoom", "max"));
+		for key in ["data_source_path", "layer_name", "id_field_tiles", "id_field_data"] {
+			let parts: Vec<&str> = up.split(' ').filter(|p| !p.starts_with(&format!("{key}="))).collect();
+			bad_transforms.push(parts.join(" "));
+			bad_transforms.extend(scalar_as_list(&parts.join(" "), key));
+		}
+		for key in ["replace_properties", "remove_non_matching", "include_id"] {
+			bad_transforms.extend(scalar_as_list(up, key).into_iter().filter(|t| !t.ends_with("[a,b]") || true));
+		}
+		let before: Vec<&str> = vec!["", " | filter_zoom max=3", " | filter_zoom min=9", " | filter_zoom min=5 max=3", " | filter_bbox bbox=[100,50,101,51] | filter_zoom min=1"];
+		let mut n = 0u64;
+		for b in &bad_transforms {
+			for pre in &before {
+				for post in ["", " | filter_zoom max=5"] {
+					for nested in [false, true] {
+						let chain = format!("{src}{pre} | {b}{post}");
+						let v = if nested { format!("from_overlayed [ {chain}, from_container filename=\"mem:1\" ]") } else { chain };
+						invalid.push(v);
+						n += 1;
+					}
+				}
+			}
+		}
+		let mut bad_reads: Vec<String> = vec!["from_nowhere".into(), "filter_zoom min=1".into(), "from_container".into(), "from_debug".into(), "from_debug format=xyz".into(), "from_container filename=\"does-not-exist.versatiles\"".into()];
+		bad_reads.extend(scalar_as_list("from_debug", "format"));
+		bad_reads.extend(scalar_as_list("from_debug format=pbf", "fast"));
+		bad_reads.extend(scalar_as_list("from_container", "filename"));
+		for b in &bad_reads {
+			for post in ["", " | filter_zoom max=5", " | filter_zoom min=5 max=3"] {
+				invalid.push(format!("{b}{post}"));
+				invalid.push(format!("from_overlayed [ {src}, {b}{post} ]"));
+				invalid.push(format!("from_overlayed [ {src} | filter_zoom min=9, {b}{post} ]"));
+				invalid.push(format!("from_vectortiles_merged [ {b}{post}, {src} ]"));
+				n += 4;
+			}
+		}
+		ctx.outcome_n("factory: systematic invalid node x position texts", n);
+	}
 	for v in &invalid {
 		ctx.eval();
 		match pipeline::build_op(&rt, &fac, v) {
@@ -695,7 +754,7 @@ pub fn run(ctx: Arc<Ctx>) {
 	ctx.rule(
 		"positive: syntax trees (pipelines of 1..3 of 12 node shapes, 0..2 nested sources from 5 nested pipelines incl. a second nesting level) rendered canonically and with every 1 deviation (whitespace variant at each optional site / quoting a bare value) and every 2 deviations for the first trees; \
 		 differential: every string of length <= 6 (quick) / <= 7 (thorough) over the alphabet a 1 k = \" \\ [ ] , | space plus all single-character deletions/insertions of two valid texts, against a reference recursive-descent parser of the documented grammar (constructs the documentation is silent about are not judged); \
-		 factory: valid and invalid operation texts. non-trivial = trees with nesting or several operations + accepted differential strings",
+		 factory: valid texts; invalid texts = hand-picked ones + every invalid node (unknown names, missing / out-of-range / mistyped values, a bracketed list of 0, 2 entries where one value is expected, for every scalar parameter of every operation) x every position (after the source, after a filter that keeps tiles, after filters that leave no tile, before a valid node, nested in a source list). non-trivial = trees with nesting or several operations + accepted differential strings",
 	);
 	ctx.assume("the reference parser encodes the documented grammar: identifier = letter (letter|digit|_|-)*, bare value = (letter|digit|.|-|_)+, quoted value with escapes \\\\ \\\" \\n \\t, list in brackets with commas, sources in brackets separated by commas, operations separated by |, whitespace = space/tab/CR/LF; undocumented: repeated keys, empty lists, trailing separators, empty quoted strings");
 	positive_space(&ctx);
